@@ -55,7 +55,7 @@ chk("C08", "exhaustive enumeration of key sequences x order-preserving positions
     "All 1957 permutations of all subsets of a 6-key alphabet (keys needing quotes, numeric/boolean look-alikes, the empty key) and all rotations/reversals of unsorted 10- and 17-key lists at each of 15 order-preserving positions, JSON and YAML input, with a `<<` merge at every index (source overlapping earlier and later explicit keys): output key order must equal input order with merged keys where the merge stood; unquoted numeric/bool keys canonicalised in place; programmatic maps with tombstones and 3-deep nesting round-trip through JSON and YAML to an ordered.Equal map.",
     "Legacy plugin mappings are covered by C03 because sources are canonicalised; key '<<' not generated on the YAML output leg.", "DESIGN.md §3 C08")
 chk("C13", "exhaustive enumeration of all token strings up to a length bound + type-error injection at every node of generated documents, on the real Parse; per-case journal for fatal crashes, watchdog for hangs",
-    "(i) every concatenation of <=5/6 tokens over a 22-token YAML/pipeline alphabet (5.4M / 118M strings); (iii) the C07 anchor/merge grammar fed to Parse; (ii) every generated document (<=1/2 deviations) and two base documents with each node replaced by each of 12 values, plus the un-injected documents: Parse must return without panic / fatal crash / hang, with a hard error or a pipeline (+warning); if usable: non-nil steps, one non-nil step per input entry (independent node-graph walk), recursively in groups, unknown steps verbatim, warning leaves >= unknown steps, JSON and YAML marshalling succeed.",
+    "(i) every concatenation of <=5/6 tokens over a 22-token YAML/pipeline alphabet (5.4M / 118M strings); (iii) the C07 anchor/merge grammar fed to Parse; (iv) all byte strings of <=2/3 bytes over 46 significant bytes, alone and embedded; (ii) every generated document (<=1/2 deviations) and two base documents with each node replaced by each of 12 values, plus the un-injected documents: Parse must return without panic / fatal crash / hang, with a hard error or a pipeline (+warning); if usable: non-nil steps, one non-nil step per input entry (independent node-graph walk), recursively in groups, unknown steps verbatim, warning leaves >= unknown steps, JSON and YAML marshalling succeed.",
     "'Any byte sequence' only within the token alphabet / injection grammar; .inf/.nan JSON marshalling is a listed known finding.", "DESIGN.md §3 C13")
 
 chk("C06", "exhaustive enumeration of all step forests up to a node bound on the real SignSteps",
